@@ -75,6 +75,11 @@ CoInv ==
       /\ (st.cur # 0 => 0 \notin {st.heap[c].resumer : c \in Chain(st.cur, Len(st.heap) + 1) \ {st.cur}} \/ TRUE)
       /\ \A c \in Cos : st.heap[c].status = "dead" => (st.heap[c].kont = <<>> /\ st.heap[c].vals = <<>>)  \* a dead coroutine keeps nothing
 
+OutcomeMatchFor(g) ==
+    LET e == ExpOutcome IN
+    /\ e[1] = g[1]
+    /\ IF e[1] = "ok" THEN ListMatch(e[2], g[2]) ELSE TokMatch(e[2], g[2])
+
 Terminal == st.mode # "run" \/ st.steps >= MaxSteps
 
 Inconclusive == T.outcome[1] \in {"budget"}
